@@ -10,7 +10,10 @@ RULE = ("cases: (a) every cap kind (9 file kinds x file/directory wrapper) with 
         "get_verify_cap (also of the derived caps), is_readonly, is_mutable, storage index, compared with the model and "
         "with an independent hashlib derivation; (b) cap strings (valid, mutated, random, future-test) under every prefix "
         "('', ro., imm.) x deep_immutable in {False, True}; (c) UnknownNode(rw, ro, deep_immutable) over None / empty / "
-        "unknown / known strings with every prefix, and NodeMaker.create_from_cap in both contexts.  distinct non-trivial "
+        "unknown / known strings with every prefix, and NodeMaker.create_from_cap in both contexts; (d) histories of 6-10 "
+        "create_from_cap calls on one NodeMaker with every node kept alive (same cap in the ordinary and in the "
+        "deep-immutable context in both orders, both slots, prefixed variants), each answer compared with a fresh "
+        "NodeMaker's.  distinct non-trivial "
         "= distinct (cap, operation) or (string, prefix, context) that reach a known kind's parser or a non-opaque node")
 META = {
     "title": "Capabilities attenuate correctly",
@@ -21,8 +24,9 @@ META = {
                    "deep-immutable context never mutable; UnknownNode never keeps a write cap in a deep-immutable context, "
                    "is opaque on error, and always prefixes its read cap."),
     "level_note": ("No cryptographic claim: one-wayness of SHA-256d is not modelled (the derived cap is shown to depend on the "
-                   "secret only through the hash).  NodeMaker.create_from_cap is exercised by the differential run and the "
-                   "oracle only, not modelled."),
+                   "secret only through the hash).  NodeMaker.create_from_cap is modelled down to which node class is built "
+                   "around which cap and to the node cache (keys, only mutable nodes cached, entries may vanish); the nodes' "
+                   "other behaviour is not."),
     "technique": "Coq proof over a hand-written model pinned to regenerated tables + differential run + direct oracle",
     "design_ref": "8/C16",
     "trusted_base": ["translator harness/translate/uri.py", "Gen/Hashutil.v (C17)"],
@@ -79,7 +83,7 @@ def attenuation(ctx):
     u = U.uri_mod()
     ctx.correspondence("attenuation-vs-model")
     terms, info = [], []
-    n = ctx.n(144, 1440)
+    n = ctx.n(144, 720)
     for i in range(n):
         r = ctx.rng("att", i)
         kind = U.FILE_KINDS[i % 9]
@@ -185,7 +189,7 @@ def prefixes(ctx):
     u = U.uri_mod()
     ctx.correspondence("prefix-and-context-vs-model")
     terms, info = [], []
-    n = ctx.n(90, 900)
+    n = ctx.n(90, 450)
     for i in range(n):
         r = ctx.rng("pre", i)
         kind = U.FILE_KINDS[i % 9]
@@ -250,7 +254,7 @@ def unknown_nodes(ctx):
     ctx.correspondence("unknown-node-vs-model")
     terms, info = [], []
     nm = NodeMaker(None, None, None, None, None, {"k": 3, "n": 10}, None, None)
-    n = ctx.n(260, 2600)
+    n = ctx.n(260, 1300)
     for i in range(n):
         r = ctx.rng("unk", i)
 
@@ -330,10 +334,105 @@ def unknown_nodes(ctx):
     ctx.trace(len(terms) - len(bad))
 
 
+def node_view(nd):
+    """Canonical observable of what create_from_cap returned."""
+    from allmydata.unknown import UnknownNode
+    if isinstance(nd, UnknownNode):
+        return ("unknown", type(nd.error).__name__ if nd.error is not None else None, nd.rw_uri, nd.ro_uri)
+    cap = nd.get_verify_cap() if type(nd).__name__ == "CiphertextFileNode" else nd.get_cap()
+    readonly = nd.is_readonly() if hasattr(nd, "is_readonly") else True
+    return ("node", type(nd).__name__, cap.to_string(), bool(nd.is_mutable()), bool(readonly))
+
+
+def made_term(nd):
+    from allmydata.unknown import UnknownNode
+    if isinstance(nd, UnknownNode):
+        err = type(nd.error).__name__ if nd.error is not None else None
+        return "(MUnknown (UOk {| un_error := %s; un_rw := %s; un_ro := %s |}))" % (U.ERR.get(err, "EBadURI"), opt(nd.rw_uri, T.bytes_), opt(nd.ro_uri, T.bytes_))
+    cap = nd.get_verify_cap() if type(nd).__name__ == "CiphertextFileNode" else nd.get_cap()
+    return "(MNode %s)" % U.cap_term(U.describe(cap))
+
+
+def histories(ctx):
+    """Sequences of create_from_cap calls on ONE NodeMaker whose nodes stay alive (the node cache
+    is a WeakValueDictionary): every answer must respect its own context whatever was asked before,
+    and equal the answer of a fresh NodeMaker."""
+    from allmydata.nodemaker import NodeMaker
+    ctx.correspondence("nodemaker-history-vs-model")
+
+    def maker():
+        return NodeMaker(None, None, None, None, None, {"k": 3, "n": 10}, None, None)
+    terms, info = [], []
+    n = ctx.n(36, 180)
+    for i in range(n):
+        r = ctx.rng("hist", i)
+        kind = U.FILE_KINDS[i % 9]
+        is_dir = (i // 9) % 2 == 1
+        fields = tuple((x % 2 ** 30) if isinstance(x, int) else x for x in U.gen_fields(r, kind))
+        if kind == "LIT":
+            fields = (fields[0][:20],)
+        c = U.make_cap(kind, fields, is_dir)
+        s = c.to_string()
+        ro_s = c.get_readonly().to_string()
+        strings = [s, s, ro_s, b"ro." + s, b"imm." + s, b"ro." + ro_s, r.choice(FUTURE[:4])]
+        calls = []
+        for _ in range(r.choice([4, 6, 8])):
+            st = r.choice(strings)
+            slot = r.random() < 0.5
+            calls.append((st, None, r.random() < 0.5) if slot else (None, st, r.random() < 0.5))
+        # make sure the pattern "ordinary context first, then the same string deep-immutable" (and the reverse) occurs
+        j = r.randrange(len(calls))
+        first = (s, None, False) if r.random() < 0.5 else (None, ro_s, False)
+        calls[j:j] = [first, first[:2] + (True,)] if r.random() < 0.7 else [first[:2] + (True,), first]
+        nm = maker()
+        alive = []
+        seq_ok = True
+        for step, (rw, ro, di) in enumerate(calls):
+            case = {"cap": type(c).__name__, "step": step, "deep_immutable": di,
+                    "calls": [[None if a is None else a.hex(), None if b is None else b.hex(), d] for a, b, d in calls[:step + 1]],
+                    "printable": [U.show(a or b) + (" deep_immutable" if d else "") for a, b, d in calls[:step + 1]]}
+            try:
+                nd = nm.create_from_cap(rw, ro, deep_immutable=di)
+                fresh = maker().create_from_cap(rw, ro, deep_immutable=di)
+            except Exception as e:
+                ctx.oracle_fail("create-from-cap-raises:" + type(e).__name__, "create_from_cap raises in a history", case=case)
+                seq_ok = False
+                break
+            alive.append(nd)
+            v, fv = node_view(nd), node_view(fresh)
+            ctx.case((type(c).__name__, tuple(calls[:step + 1])) if v[0] == "node" else None,
+                     kind="history:%s:%s" % ("deep-immutable" if di else "ordinary", v[1] if v[0] == "node" else "UnknownNode"))
+            big = rw or ro
+            if v[0] == "node":
+                if di and (v[3] or not v[4]):
+                    ctx.oracle_fail("alleged-immutable-interpreted-as-mutable",
+                                    "create_from_cap(%s, deep_immutable=True) after %d earlier calls on the same NodeMaker returned a %s (mutable=%s, readonly=%s)" % (
+                                        U.show(big), step, v[1], v[3], v[4]), case=case, expected="immutable read-only node or opaque UnknownNode", observed=list(v))
+                if (big.startswith(b"ro.") or big.startswith(b"imm.")) and not v[4]:
+                    ctx.oracle_fail("alleged-prefix-upgraded-to-writeable", "create_from_cap(%s) in a history returned a writeable %s" % (U.show(big), v[1]), case=case)
+                if big.startswith(b"imm.") and v[3]:
+                    ctx.oracle_fail("alleged-immutable-interpreted-as-mutable", "create_from_cap(%s) in a history returned a mutable %s" % (U.show(big), v[1]), case=case)
+            elif di and v[2] is not None:
+                ctx.oracle_fail("unknown-node-keeps-rw-in-immutable-context", "UnknownNode with a write cap in a deep-immutable context (history)", case=case)
+            if v != fv:
+                ctx.oracle_fail("create-from-cap-depends-on-history", "create_from_cap(%s, deep_immutable=%s) answers %s after %d earlier calls but %s on a fresh NodeMaker" % (
+                    U.show(big), di, str(v)[:160], step, str(fv)[:160]), case=case, expected=str(fv)[:300], observed=str(v)[:300])
+        if seq_ok:
+            callt = "[" + "; ".join("(%s, %s, %s)" % (opt(a, T.bytes_), opt(b, T.bytes_), T.boolean(d)) for a, b, d in calls) + "]"
+            terms.append("made_list_eqb (run_calls [] %s) [%s]" % (callt, "; ".join(made_term(x) for x in alive)))
+            info.append({"cap": type(c).__name__, "printable": [U.show(a or b) + (" deep_immutable" if d else "") for a, b, d in calls]})
+    bad = ctx.coq_check(IMPORTS, terms, tag="c16hist", shard=12)
+    for ix in bad:
+        ctx.mismatch("model-vs-impl:create_from_cap-history", "Model run_calls and NodeMaker.create_from_cap differ on a history over a %s" % info[ix]["cap"],
+                     case=info[ix], correspondence="nodemaker-history-vs-model")
+    ctx.trace(len(terms) - len(bad))
+
+
 def run(ctx):
     attenuation(ctx)
     prefixes(ctx)
     unknown_nodes(ctx)
+    histories(ctx)
 
 
 def replay(ctx, rec):
@@ -350,6 +449,20 @@ def replay(ctx, rec):
                 ctx.oracle_fail("alleged-prefix-upgraded-to-writeable", "still writeable on replay", case=case)
             if (s.startswith(b"imm.") or case["deep_immutable"]) and o[2].is_mutable():
                 ctx.oracle_fail("alleged-immutable-interpreted-as-mutable", "still mutable on replay", case=case)
+    elif "calls" in case:
+        from allmydata.nodemaker import NodeMaker
+        nm = NodeMaker(None, None, None, None, None, {"k": 3, "n": 10}, None, None)
+        alive, views = [], []
+        for a, b, d in case["calls"]:
+            rw = None if a is None else bytes.fromhex(a)
+            ro = None if b is None else bytes.fromhex(b)
+            nd = nm.create_from_cap(rw, ro, deep_immutable=d)
+            alive.append(nd)
+            v = node_view(nd)
+            views.append({"call": U.show(rw or ro), "deep_immutable": d, "answer": str(v)[:200]})
+            if v[0] == "node" and d and (v[3] or not v[4]):
+                ctx.oracle_fail("alleged-immutable-interpreted-as-mutable", "deep-immutable call answered with a mutable/writeable %s" % v[1], case=case)
+        out = {"history": views}
     elif "rw_hex" in case:
         from allmydata.unknown import UnknownNode
         rw = None if case["rw_hex"] is None else bytes.fromhex(case["rw_hex"])
